@@ -8,7 +8,13 @@ use allsorts::binary::read::ReadScope;
 use allsorts::binary::write::{WriteBinary, WriteBuffer};
 use allsorts::error::ParseError;
 use allsorts::font_data::FontData;
-use allsorts::tables::{FontTableProvider, HeadTable, MaxpTable, SfntVersion};
+use allsorts::tables::{FontTableProvider, HeadTable, HheaTable, MaxpTable, SfntVersion};
+use allsorts::tables::glyf::{GlyfRecord, GlyfTable, Glyph};
+use allsorts::tables::loca::LocaTable;
+use allsorts::cff::CFF;
+use allsorts::outline::{OutlineBuilder, OutlineSink};
+use allsorts::pathfinder_geometry::line_segment::LineSegment2F;
+use allsorts::pathfinder_geometry::vector::Vector2F;
 use allsorts::tables::Fixed;
 use allsorts::{subset, tag, variations};
 use avh::prng::{hex, unhex, Rng};
@@ -35,6 +41,119 @@ impl SfntVersion for MapProvider {
     fn sfnt_version(&self) -> u32 {
         0x00010000
     }
+}
+
+struct NullSink;
+impl OutlineSink for NullSink {
+    fn move_to(&mut self, _: Vector2F) {}
+    fn line_to(&mut self, _: Vector2F) {}
+    fn quadratic_curve_to(&mut self, _: Vector2F, _: Vector2F) {}
+    fn cubic_curve_to(&mut self, _: LineSegment2F, _: Vector2F) {}
+    fn close(&mut self) {}
+}
+
+/// cross-table consistency of a written font and "the library can load it and query every glyph":
+/// returns the list of violated clauses (empty = consistent)
+fn consistency(bytes: &[u8], min_glyphs: usize) -> Vec<String> {
+    let mut flags = vec![];
+    let fd = match ReadScope::new(bytes).read::<FontData<'_>>() {
+        Ok(f) => f,
+        Err(_) => return vec!["reload-failed".to_string()],
+    };
+    let p = match fd.table_provider(0) {
+        Ok(p) => p,
+        Err(_) => return vec!["reload-failed".to_string()],
+    };
+    let get = |t: u32| p.table_data(t).ok().flatten().map(|c| c.into_owned());
+    let head = get(tag::HEAD).and_then(|d| ReadScope::new(&d).read::<HeadTable>().ok());
+    let maxp = get(tag::MAXP).and_then(|d| ReadScope::new(&d).read::<MaxpTable>().ok());
+    let (head, maxp) = match (head, maxp) {
+        (Some(h), Some(m)) => (h, m),
+        _ => return vec!["head-or-maxp-unreadable".to_string()],
+    };
+    let ng = usize::from(maxp.num_glyphs);
+    if ng < min_glyphs {
+        flags.push("maxp-fewer-glyphs-than-requested".to_string());
+    }
+    if let (Some(hhea), Some(hmtx)) = (get(tag::HHEA), get(tag::HMTX)) {
+        match ReadScope::new(&hhea).read::<HheaTable>() {
+            Ok(hhea) => {
+                let nhm = usize::from(hhea.num_h_metrics);
+                if nhm == 0 || nhm > ng {
+                    flags.push("hhea-numberOfHMetrics-out-of-range".to_string());
+                } else if hmtx.len() != 4 * nhm + 2 * (ng - nhm) {
+                    flags.push(format!("hmtx-length-{}-expected-{}", hmtx.len(), 4 * nhm + 2 * (ng - nhm)));
+                }
+            }
+            Err(_) => flags.push("hhea-unreadable".to_string()),
+        }
+    }
+    if let (Some(loca_d), Some(glyf_d)) = (get(tag::LOCA), get(tag::GLYF)) {
+        match ReadScope::new(&loca_d).read_dep::<LocaTable<'_>>((ng, head.index_to_loc_format)) {
+            Ok(loca) => {
+                let offs: Vec<u32> = loca.offsets.iter().collect();
+                if offs.len() != ng + 1 {
+                    flags.push("loca-entry-count".to_string());
+                }
+                if offs.windows(2).any(|w| w[0] > w[1]) {
+                    flags.push("loca-not-monotone".to_string());
+                }
+                if let Some(last) = offs.last() {
+                    if *last as usize > glyf_d.len() {
+                        flags.push(format!("loca-last-{}-beyond-glyf-length-{}", last, glyf_d.len()));
+                    }
+                }
+                match ReadScope::new(&glyf_d).read_dep::<GlyfTable<'_>>(&loca) {
+                    Ok(mut glyf) => {
+                        for i in 0..glyf.records().len() {
+                            let mut rec = glyf.records()[i].clone();
+                            if rec.parse().is_err() {
+                                flags.push(format!("glyph-{}-unparsable", i));
+                                break;
+                            }
+                            if let GlyfRecord::Parsed(Glyph::Composite(c)) = &rec {
+                                if c.glyphs.iter().any(|g| usize::from(g.glyph_index) >= ng) {
+                                    flags.push(format!("glyph-{}-component-out-of-range", i));
+                                    break;
+                                }
+                            }
+                        }
+                        let mut sink = NullSink;
+                        for g in 0..ng.min(400) {
+                            if glyf.visit(g as u16, &mut sink).is_err() {
+                                flags.push(format!("glyph-{}-outline-error", g));
+                                break;
+                            }
+                        }
+                    }
+                    Err(_) => flags.push("glyf-unreadable".to_string()),
+                }
+            }
+            Err(_) => flags.push("loca-unreadable".to_string()),
+        }
+    }
+    if let Some(cff_d) = get(tag::CFF) {
+        match ReadScope::new(&cff_d).read::<CFF<'_>>() {
+            Ok(mut cff) => {
+                let n = cff.fonts.first().map(|f| f.char_strings_index.len()).unwrap_or(0);
+                if n != ng {
+                    flags.push(format!("cff-charstrings-{}-maxp-{}", n, ng));
+                }
+                let mut sink = NullSink;
+                for g in 0..ng.min(400) {
+                    if cff.visit(g as u16, &mut sink).is_err() {
+                        flags.push(format!("cff-glyph-{}-outline-error", g));
+                        break;
+                    }
+                }
+            }
+            Err(_) => flags.push("cff-unreadable".to_string()),
+        }
+    }
+    if allsorts::Font::new(p).is_err() {
+        flags.push("font-new-failed".to_string());
+    }
+    flags
 }
 
 fn fixture(path: &str) -> Vec<u8> {
@@ -109,7 +228,7 @@ fn run(input: &str) -> String {
             };
             let gids: Vec<u16> = parts[2].split(',').map(|g| g.parse().unwrap()).collect();
             match subset::subset(&p, &gids) {
-                Ok(b) => format!("ok:{}", hex(&b)),
+                Ok(b) => format!("ok:{}:{}", hex(&b), consistency(&b, gids.len()).join("+")),
                 Err(_) => "err".to_string(),
             }
         }
@@ -125,7 +244,7 @@ fn run(input: &str) -> String {
             };
             let coords: Vec<Fixed> = parts[2].split(',').filter(|s| !s.is_empty()).map(|g| Fixed::from_raw(g.parse().unwrap())).collect();
             match variations::instance(&p, &coords) {
-                Ok((b, _)) => format!("ok:{}", hex(&b)),
+                Ok((b, _)) => format!("ok:{}:{}", hex(&b), consistency(&b, 1).join("+")),
                 Err(_) => "err".to_string(),
             }
         }
@@ -197,8 +316,8 @@ const SUBSET_FONTS: &[(&str, u16)] = &[
 const VAR_FONTS: &[(&str, usize)] = &[("opentype/NotoSans-VF.abc.ttf", 3), ("variable/UnderlineTest-VF.ttf", 2)];
 
 fn gen(rng: &mut Rng) -> String {
-    match rng.below(40) {
-        0 => {
+    match rng.below(12) {
+        0 | 2 | 3 => {
             let (f, n) = *rng.pick(SUBSET_FONTS);
             let k = (1 + rng.below(6) as usize).min(n as usize);
             let mut g: Vec<u16> = vec![0];
